@@ -57,7 +57,7 @@ REQUIRED_COUNTERS = {
               "chain_transitions_checked": 10000, "stationarity_tests": 12,
               "target_args_unchanged_checked": 50000, "forward_input_checked": 5000, "library_target_vs_reference_checked": 400,
               "outside_start_bad_proposals_checked": 600, "outside_start_inward_proposals_checked": 200,
-              "initial_point_rep_checked": 60, "initial_point_rep_noise_dim_checked": 600},
+              "initial_point_rep_checked": 90, "initial_point_rep_noise_dim_checked": 800},
     # thorough floors are ~30 % of a complete run, so that a heavily shared machine (cases cut by the wall-clock budget)
     # still gives a verdict
     "thorough": {"proposal_maps_identified": 10000, "documented_proposal_checked": 4500, "threshold_accept_side": 15000,
@@ -66,7 +66,7 @@ REQUIRED_COUNTERS = {
                  "chain_transitions_checked": 36000, "stationarity_tests": 30,
                  "target_args_unchanged_checked": 250000, "forward_input_checked": 30000, "library_target_vs_reference_checked": 1700,
                  "outside_start_bad_proposals_checked": 2400, "outside_start_inward_proposals_checked": 800,
-                 "initial_point_rep_checked": 200, "initial_point_rep_noise_dim_checked": 2000}}
+                 "initial_point_rep_checked": 300, "initial_point_rep_noise_dim_checked": 3000}}
 BUDGET_S = {"quick": 240.0, "thorough": 2400.0}
 
 LEGACY_NAME = {"MH": "MH", "CWMH": "CWMH", "PCN": "pCN", "MALA": "MALA", "ULA": "ULA"}
